@@ -62,7 +62,7 @@ SOURCES = ('kw', 'tvar', 'client', 'mapping', 'ckw', 'cmap')
 FORMS = ('var', 'call', 'callexpr', 'varexprcall', 'entity', 'ifvar',
          'exprlambda', 'exprcomp', 'exprgen')
 BINDERS = ('in', 'inb', 'with', 'withmap', 'withonly', 'let', 'letn', 'if',
-           'try', 'sub')
+           'elif', 'try', 'sub')
 SYNTAXES = ('dtml', 'ssi', 'epfs')
 
 
@@ -123,6 +123,11 @@ def cases(tier):
     # two sibling blocks: what the first one bound (or cached) is gone in
     # the second; with ncall the outer value is a callable whose result
     # changes with every call, so a stale cached value is visible
+    for a in levels:
+        # every single block with an outer value that changes on every call
+        idx += 1
+        yield {'fam': 'scope', 'nest': [list(a)], 'ncall': 1,
+               'syntax': SYNTAXES[idx % 3]}
     for a in levels:
         for b in levels:
             for ncall in (0, 1):
@@ -323,6 +328,14 @@ def build_scope(case):
                 # the conditional tests (and so caches) the probe name itself
                 ns['n'] = ns.get('n')
                 node = ['if', [[N('n'), inner]], [T('else')]]
+        elif kind == 'elif':
+            # the remembered value comes from a name-form elif behind a
+            # false expression-form if
+            ns['c%d' % k] = ['probe', 'c%d' % k, ['lit', marker]]
+            cname = 'n' if rebind else 'c%d' % k
+            inner2 = inner if rebind else [['var', N(cname), []]] + inner
+            node = ['if', [[E('0'), [T('never')]], [N(cname), inner2]],
+                    [T('else')]]
         elif kind == 'try':
             ns['boom%d' % k] = ['raiser', 'boom%d' % k, 'HB', 'x']
             node = ['try', [T('t'), ['var', N('boom%d' % k), []]],
